@@ -306,7 +306,37 @@ def r09_4(chk, fn, run_):
     fin = [n for s in good for n in ast.walk(s) if isinstance(n, ast.If) and norm(n.test) in ('abs(total-1)<0.001',)]
     chk.ob('R09.4', bool(fin) and any(norm(x) == 'finished=True' for x in fin[0].body), NR, fname, 'finished when the full load is reached', got=[norm(f.test) for f in fin])
     incs = [n for s in good for n in ast.walk(s) if isinstance(n, ast.Assign) and norm(n.targets[0]) == 'inc_new']
-    ok = bool(incs) and all(isinstance(i.value, ast.Call) and callee_name(i.value) == 'min' and 'factor*inc' in [norm(a) for a in i.value.args] and '%s.maxInc' % run_ in [norm(a) for a in i.value.args] for i in incs)
+    ok = bool(incs) and all(isinstance(i.value, ast.Call) and callee_name(i.value) == 'min' and any(pyrules.same_expr(a, 'factor*inc') for a in i.value.args)
+                            and any(pyrules.same_expr(a, '%s.maxInc' % run_) for a in i.value.args) for i in incs)
     facs = [literal(n.value) for s in good for n in ast.walk(s) if isinstance(n, ast.Assign) and norm(n.targets[0]) == 'factor']
     chk.ob('R09.4', ok and facs and all(f is not None and f > 1 for f in facs), NR, fname, 'increment regrowth bounded by maxInc and the remaining load',
            got=[norm(i.value) for i in incs], sample='inc = min(factor*inc, maxInc, remaining)')
+    # the increment never exceeds the remaining load, so that `inc` is the step actually taken even next to total = 1
+    # (the cut-back bookkeeping total -= inc relies on it)
+    from .poly import P
+    for i in incs:
+        capped = False
+        if isinstance(i.value, ast.Call) and callee_name(i.value) == 'min':
+            for a in i.value.args:
+                pa = pyrules.expr_poly(a)
+                if pa is None:
+                    continue
+                lam = pa.t.get((), 0)
+                if lam and 0 < lam <= 1 and set(pa.t) == {(), (('total', 1),)} and pa.t[(('total', 1),)] == -lam:
+                    capped = True
+        chk.ob('R09.4', capped, NR, fname, 'next increment capped by the remaining load', line=i.lineno,
+               expected='one argument of the min() is lambda*(1 - total) with 0 < lambda <= 1', got=norm(i.value),
+               detail='' if capped else 'with total capped at 1 but inc not, a failed step at full load is cut back from the wrong place: load factors can be reported out of order',
+               sample='inc_new = %s' % norm(i.value))
+    # line search: giving up at the iteration limit falls back to the full Newton step
+    for w in [n for n in ast.walk(fn) if isinstance(n, ast.While)]:
+        if not any(isinstance(x, ast.Assign) and norm(x.targets[0]) == 'eta2' for x in ast.walk(w)):
+            continue
+        for n in ast.walk(w):
+            if isinstance(n, ast.If) and 'max_iter_line_search' in norm(n.test) and any(isinstance(b, ast.Break) for b in n.body):
+                pos = [k for k, b in enumerate(n.body) if isinstance(b, ast.Break)][0]
+                reset = [b for b in n.body[:pos] if isinstance(b, ast.Assign) and norm(b.targets[0]) == 'eta2' and literal(b.value) == 1]
+                chk.ob('R09.4', bool(reset), NR, fname, 'line search gives up with the full Newton step', line=n.lineno,
+                       expected='eta2 = 1. before leaving the loop at the iteration limit', got=[norm(b)[:40] for b in n.body],
+                       detail='' if reset else 'the last trial step length (possibly nan when the residual along delta_c vanishes) is applied to the state',
+                       sample='line search: eta2 = 1. at the iteration limit')
